@@ -151,15 +151,22 @@ def impl_scaled(c):
         x = _rand(in_shape, g, dt)
         try:
             (y0,) = op(x)
-        except (RuntimeError, TypeError, ValueError) as e:   # the inner operator itself rejects that dtype
+            u = _rand(list(y0.shape), g, dt)
+            op.adjoint(u)
+        except (RuntimeError, TypeError, ValueError) as e:   # the inner operator itself rejects that dtype (in forward or in adjoint)
             res[name] = {'unsupported': str(e)[:60]}
+            continue
+        try:    # an operator with real coefficients may reject complex tensors altogether (torch.einsum with mixed dtypes, depending
+            # on the contraction path): then s x / conj(s) u is outside its domain and there is nothing to compare
+            op(s * x.to(torch.complex128)), op.adjoint(np.conj(s) * _rand(list(y0.shape), torch.Generator().manual_seed(1), dt).to(torch.complex128))
+        except (RuntimeError, TypeError, ValueError) as e:
+            res[name] = {'unsupported': 'complex tensors rejected: ' + str(e)[:60]}
             continue
         if c['side'] == 'left':       # (s * A)(x) = s * A(x)
             f = torch.tensor(s, dtype=torch.complex128) if c['tensor_factor'] else s
             sop = f * op
             want = s * y0.to(torch.complex128)
             (got,) = sop(x)
-            u = _rand(list(y0.shape), g, dt)
             (ga,) = sop.adjoint(u)
             wanta = op.adjoint((np.conj(s) * u.to(torch.complex128)))[0] if True else None
         else:                          # (A * s)(x) = A(s * x)
@@ -167,7 +174,6 @@ def impl_scaled(c):
             sop = op * f
             want = op(s * x.to(torch.complex128))[0]
             (got,) = sop(x)
-            u = _rand(list(y0.shape), g, dt)
             (ga,) = sop.adjoint(u)
             wanta = np.conj(s) * op.adjoint(u)[0].to(torch.complex128)
         sc = float(max(1.0, want.abs().max()))
